@@ -420,6 +420,16 @@ func init() {
 			}
 			js = append(js, big("rs 1 MiB payloads db1", "rs", false, false), big("os 1 MiB payloads db1", "os", false, false),
 				big("rs 1 MiB payloads, allocator db1", "rs", true, false), big("os 1 MiB payloads, allocator (option given last) db1", "os", true, true))
+			// the packet manager alone (narrowest seam): ALL request programs up to a length, each under every policy
+			pm := func(build, alphabet string, n, bound, budget int) reg.Job {
+				return reg.Job{Part: "C02/pm", Build: build, Args: map[string]string{"alphabet": alphabet, "len": fmt.Sprint(n), "strategy": "db", "bound": fmt.Sprint(bound)}, Shards: 16, BudgetS: budget,
+					Label: fmt.Sprintf("packet manager alone (%s): all programs <= %d over %s, db%d", build, n, alphabet, bound)}
+			}
+			if tier == "thorough" {
+				js = append(js, withPolicies(tier, []reg.Job{pm("instr-w2", "RrSCc", 5, 3, 420), pm("instr-w3", "RSC", 5, 3, 420), pm("instr", "RSC", 4, 3, 420)}, func(reg.Job) bool { return true })...)
+			} else {
+				js = append(js, withPolicies(tier, []reg.Job{pm("instr-w2", "RSC", 4, 3, 100)}, func(reg.Job) bool { return true })...)
+			}
 			if c02ExtraJobs != nil {
 				js = append(js, c02ExtraJobs(tier)...)
 			}
